@@ -3,7 +3,7 @@
 # Applies the patch in the scratch worktree (never in /repo), runs ./check <prop> quick against it via
 # AIORTC_SRC, reverts.  Prints one line per property: CAUGHT / MISSED.
 WT="$1"; P="$2"; B="$3"; shift 3
-cd "$WT" && git checkout -q -- src && git apply "$P" || { echo "patch failed"; exit 2; }
+cd "$WT" && git checkout -q -- src && git checkout -q --detach $(git -C /repo rev-parse HEAD) && git apply "$P" || { echo "patch failed"; exit 2; }
 cd /verif
 for prop in "$@"; do
   out=$(AIORTC_SRC=$WT/src VERIF_BUDGET_S=$B VERIF_MIN_BUDGET=40 ./check $prop quick 2>&1)
